@@ -541,13 +541,13 @@ func families(full bool) []group {
 				return d
 			}})
 		}
-		for _, k := range [][2]string{{"text", "text"}, {"bytes", "bytes"}, {"json", "json"}} {
+		for _, k := range [][3]string{{"text", "text", ""}, {"bytes", "bytes", ""}, {"bytes", "bytes", "slice"}, {"bytes", "bytes", "string"}, {"json", "json", ""}} {
 			c := rbase
 			c.Produces = k[1]
-			kind := k[0]
+			kind, dest := k[0], k[2]
 			add(group{"response-body", len(rvals), func(i int) Case {
 				d := with(c)
-				d.Resp = Resp{Status: status, Kind: kind, Text: rvals[i]}
+				d.Resp = Resp{Status: status, Kind: kind, Text: rvals[i], Dest: dest}
 				if kind == "json" {
 					d.Resp.Text = ""
 					d.Resp.Body = []F{{K: "s", T: "s", V: rvals[i]}, {K: "k" + rvals[i], T: "as", V: rvals[i]}}
@@ -830,7 +830,7 @@ var familyAxes = map[string]string{
 	"typed-array":                "location {query form header} x item type x {csv multi} x (empty, every 1-list, every 2-list of the boundary literals)",
 	"response-status":            "methods {GET POST PUT DELETE HEAD} x body kind {none json json-array text bytes} x statuses {200 201 202 204 400 401 403 404 409 422 500 503}, two response headers (one multi-valued, one with a lower-case name)",
 	"response-header":            "status {200 404} x every valid field value, once alone and once in a two-valued header",
-	"response-body":              "status {200 404} x {text bytes json} x values; JSON numbers at the boundaries; bodies of 1..1 MiB",
+	"response-body":              "status {200 404} x {text, bytes into an io.Writer, bytes into a *[]byte, bytes into a *string, json} x values; JSON numbers at the boundaries; bodies of 1..1 MiB",
 	"response-plain-payload":     "handler returns the payload itself: success code of the description {200 201 202 204} x {json json-array text bytes} x atoms",
 	"response-error":             "handler returns an error: statuses {400 401 403 404 409 422 500 503} x produces {json text} x atoms as message",
 	"combined":                   "base paths {/api, /} x auth writer x {json body, urlencoded field, multipart field} x every value valid in all positions, the same value in path, query, header and body/field, echoed in a response header and body with status 201",
@@ -838,8 +838,9 @@ var familyAxes = map[string]string{
 	"long-values":                "lengths {255 256 4096 65536} x 3 repeating units, the same value in path, query, header, body/field and echoed back",
 	"media-type-spelling":        "consumes / produces spelled with a charset parameter (application/json, text/plain)",
 	"template-composite-segment": "base paths {/api, /} x templates {/files/{id}-x, /files/{id}.json/meta, /files/v{id}, /files/v{id}.json} x atoms without the literal characters; templates {/files/{a}-{b}, /files/{a}.{b}/z} x those atoms x those atoms",
-	"sequences-on-one-instance":  "per world (base path /api; thorough also /): one description with 7 operations (POST /things with a string body in json/text/bytes and json/text responses; POST /things/{id}; PUT /things with an object body; POST /forms in urlencoded and multipart; GET /things producing json/text/bytes; POST /upload; GET /things/{id}/sub), an alphabet of 42 round trips over them (different media types, values, statuses, the whole auth writer axis on the streamed bodies); EVERY ordered pair of the alphabet (1764), thorough: every ordered triple of 16 core steps (4096), and the whole alphabet forward then backward (84 steps) - each sequence on ONE server instance and ONE client.Runtime, every step judged by the identity oracle and compared with the observation of the same step alone on a fresh instance",
+	"sequences-on-one-instance":  "per world (base path /api; thorough also /): one description with 7 operations (POST /things with a string body in json/text/bytes and json/text responses; POST /things/{id}; PUT /things with an object body; POST /forms in urlencoded and multipart; GET /things producing json/text/bytes; POST /upload; GET /things/{id}/sub), an alphabet of 47 round trips over them (different media types, values, statuses, the whole auth writer axis on the streamed bodies); EVERY ordered pair of the alphabet (2209), thorough: every ordered triple of 19 core steps (6859), and the whole alphabet forward then backward (94 steps) - each sequence on ONE server instance and ONE client.Runtime, every step judged by the identity oracle and compared with the observation of the same step alone on a fresh instance; kept values: every decoded response body handed to the reader and every bound value handed to the handler is deep-copied at delivery and re-compared after every later step (class in-sequence/kept-value-changed-later); plus, with a NEW server and Runtime for every step (only the process shared): the long history and every ordered pair of the steps with a binary body",
 	"auth-writer-axis":           "wherever a family says auth writer: {none, header-only writer, GetBody once, twice, three times, client.Compose of two writers that each call GetBody}; families with a streamed body (multipart forms, files, reader payloads, string-schema bodies) take all six in both tiers, families with a buffered body (urlencoded, JSON) take {none, once, twice} in quick and all six in thorough",
+	"kept-values-single-cases":   "in every single-round-trip family the values delivered by a case are re-compared after each of the next 4 cases of its group (new Runtime per case, same process): class kept-value-changed-later",
 	"sequences-baseline-alone":   "each step of the alphabet alone on a fresh instance of the world's description",
 	"template-shape":             "base paths {/api, /} x templates {/, /items/, /items/{id}/, literals with space, non-ASCII, '+', ':', ';'} x methods {GET POST}; base paths with space, non-ASCII, ';'",
 	"triples-path":               "thorough: every concatenation of three atoms as a path value",
